@@ -638,7 +638,11 @@ Value Search::search(Position& position, Depth depth, Value alpha, Value beta,
         best_move = begin[0];
         set_new_pv_list(info, best_move);
     }
-    else
+    // (a root restricted by searchmoves maximises over a subset of the moves:
+    // its value is only a lower bound of the position's value and must not
+    // be stored as exact or as an upper bound - a later search of the same
+    // position would be answered from the table with it)
+    else if (!(ROOT_NODE && limits.searchmovesnum > 0))
     {
         tt::Flag flag = PV_NODE ? tt::Flag::kEXACT : tt::Flag::kUPPER_BOUND;
         tt::TTEntry entry(bestValue, depth, flag, best_move);
